@@ -3,15 +3,16 @@
  * Both repository sources are part of this translation unit, unchanged and
  * without any macro renaming, so that the following REAL functions run:
  *   parsec_remote_dep_activate, remote_dep_mark/is/reset_forwarded,
- *   remote_dep_bcast_{star,chainpipeline,binomial}_child, parsec_remote_dep_init's
- *   topology switch is NOT run (it needs MPI): the harness stores the child
- *   function into the static pointer remote_dep_bcast_child the way the switch
- *   does (0 star, 1 chain, 2 binomial, anything else star),
+ *   remote_dep_bcast_{star,chainpipeline,binomial}_child,
  *   remote_dep_rank_to_bit / remote_dep_bit_to_rank, remote_deps_allocation_init,
  *   remote_deps_allocate / remote_deps_free, remote_dep_complete_and_cleanup,
+ *   parsec_remote_dep_reconfigure (fw mask size),
  *   remote_dep_dequeue_send -> (context flag COMM_MT) remote_dep_nothread_send ->
  *   remote_dep_mpi_pack_dep -> parsec_ce.send_am,
  *   parsec_remote_dep_propagate + parsec_gather_collective_pattern on receivers.
+ * NOT run: parsec_remote_dep_init (needs MPI and the comm thread); the harness stores
+ * the child function into the static pointer remote_dep_bcast_child the way its
+ * switch does (0 star, 1 chain, 2 binomial, anything else star).
  * Replaced (function pointers only): parsec_ce.send_am is a recorder that keeps
  * the packed wire message; parsec_ce.pack/pack_size are byte copies; the
  * termination-detection module of the fake taskpool is a no-op.
@@ -108,8 +109,6 @@ static void fake_iterate_successors(parsec_execution_stream_t *es, const parsec_
                 if (PARSEC_ITERATE_STOP == ontask(es, &nc, t, &fdeps[k], &data, ROOT, r, 0, NULL, 0, arg)) return;
     }
 }
-
-static void *fake_dtt = (void *)&fake_dtt;
 
 static void set_payload(parsec_remote_deps_t *d) {
     for (int k = 0; k < MAXOUT; k++) {   /* a data output that is not a CONTROL, never packed inline */
